@@ -11,6 +11,17 @@ Let s0 := init sid0 rsa swin cwin.
 Let s := fst (run s0 ops).
 Let E := frames_of (snd (run s0 ops)).
 
+(* no op sets the ghost flag [late] any more (SetReliableBoundary and enableResetStreamAt are no-ops on a
+   reset stream): the hypothesis of round 2 is discharged *)
+Lemma run_late_const ops0 : forall st0, late (run_state st0 ops0) = late st0.
+Proof.
+  induction ops0 as [|o r IH]; intros st0; [reflexivity|].
+  unfold run_state in *. cbn [fold_left]. rewrite IH, step_late_eq. unfold sets_late. apply orb_false_r.
+Qed.
+
+Lemma late_never : late s = false.
+Proof. unfold s. rewrite run_fst, run_late_const. reflexivity. Qed.
+
 Lemma final_Inv : late s = false -> Inv s.
 Proof. intros H. unfold s in *. rewrite run_fst in *. apply run_Inv; auto. apply init_Inv. Qed.
 
@@ -108,4 +119,11 @@ Proof.
   intros H. destruct (late s) eqn:EL; auto. exfalso.
   unfold s in *. rewrite run_fst in *. revert H. apply run_late_reset; auto. discriminate.
 Qed.
+
+(** the same theorems without the (now vacuous) hypothesis *)
+Definition sender_frames_consistent' := sender_frames_consistent late_never.
+Definition reset_stream_holds_no_buffer' := reset_stream_holds_no_buffer late_never.
+Definition sender_no_panic' := sender_no_panic late_never.
+Definition sender_completion_exactly_once' := sender_completion_exactly_once late_never.
+Definition emitted_good' := emitted_good late_never.
 End Sender.
